@@ -10,9 +10,10 @@
 // goes from its write error to closeWithError without a scheduling point.)
 //
 // Every run yields two op lines:
-//   wsched ...  commands and observed events, replayed by the Lean machine (quit / flusherQuit / shutQuit actions) -- model-vs-code
-//   wtrace ...  the byte stream as pieces with the enter / end / tick / quit / close / outcome events in order, judged
-//               by the Lean monitor (Driver.C07.wmonitor)                                                        -- spec-backed
+//
+//	wsched ...  commands and observed events, replayed by the Lean machine (quit / flusherQuit / shutQuit actions) -- model-vs-code
+//	wtrace ...  the byte stream as pieces with the enter / end / tick / quit / close / outcome events in order, judged
+//	            by the Lean monitor (Driver.C07.wmonitor)                                                        -- spec-backed
 package main
 
 import (
